@@ -78,6 +78,18 @@ Theorem c08_period_server_clock_only : forall d t (s : store) ops,
 Proof. intros. apply prun_shift. Qed.
 Print Assumptions c08_period_server_clock_only.
 
+(* Count and expiry are set atomically (one script = one step of the server): from an empty Redis, after
+   ANY history -- whatever became of the callers while their takes were at the server (cancelled
+   context, dead connection: the model's step is the server's, not the caller's) -- no counter is stored
+   without an expiry, so every window that was opened still ends and the count restarts after it. *)
+Theorem c08_period_count_always_expires : forall t0 ops k c ex, Forall pos_windows ops ->
+  alookup Nat.eqb k (snd (pfinal (t0, []) ops)) = Some (c, ex) -> 1 <= c /\ exists e, ex = Some e.
+Proof.
+  intros t0 ops k c ex F H. apply (pfinal_expiring ops t0 [] F) with (k := k); [|exact H].
+  intros k' c' ex' H'. discriminate.
+Qed.
+Print Assumptions c08_period_count_always_expires.
+
 (* A replaced server (restart without persistence, fail-over, new container) is a fresh Redis: the
    limiter keeps working and the history continues as from an empty store at the current clock
    (so all theorems above apply again from there; the windows of the lost server are gone). *)
@@ -119,6 +131,20 @@ Theorem c08_grant_iff : forall rate burst kt ks t0 (s0 : store) h n,
     0 <= blevel rate burst 1 b sec <= burst.
 Proof. intros. apply token_grant_iff; assumption. Qed.
 Print Assumptions c08_grant_iff.
+
+(* The decision depends on the bucket level only: after any history, a request too large for the bucket
+   is refused and a smaller one that fits is granted right after it, in the same second. *)
+Theorem c08_denied_large_then_smaller : forall rate burst kt ks t0 (s0 : store) h n1 n2,
+  kt <> ks -> 1 <= rate -> 1 <= burst -> rate <= 2 * burst ->
+  alookup Nat.eqb kt s0 = None -> alookup Nat.eqb ks s0 = None -> hwf h ->
+  let sec := (t0 + helapsed h) / 1000 in
+  let b := bfinal rate burst 1 (binit burst 1 (t0 / 1000)) (reqs_of t0 h) in
+  0 <= n2 <= blevel rate burst 1 b sec -> blevel rate burst 1 b sec < n1 ->
+  exists stf evs,
+    hrun (mkC rate burst kt ks) (t0, s0) (h ++ [HReq n1; HReq n2]) =
+      Some (stf, evs ++ [mkEv sec n1 false; mkEv sec n2 true]).
+Proof. intros. apply token_denied_then_smaller; assumption. Qed.
+Print Assumptions c08_denied_large_then_smaller.
 
 (* Between second s and second s+t at most burst + rate*t events are let through (granted_sum adds the n of the granted requests). *)
 Theorem c08_token_bound : forall rate burst kt ks t0 (s0 : store) h stf evs s t,
